@@ -1,6 +1,6 @@
 SPECIFICATION Spec
 CONSTANTS
-  Names = {"x", "y"}
+  Names = {"x", "xy"}
   Cbs = {1, 2}
   OnceGuard = TRUE
   H = 3
